@@ -9,7 +9,7 @@ from ..core import Violation, library_exception
 
 META = {
     "level": "exploration",
-    "rule": ("stateful (hypothesis RuleBasedStateMachine): a file is chosen from a pool of nine prepared files (a single group of four inlines, a wide short cube, 4x4xN with "
+    "rule": ("stateful (hypothesis RuleBasedStateMachine): a file is chosen from a pool of eleven prepared files (261 block columns on four inlines, a 20 MiB data section, a single group of four inlines, a wide short cube, 4x4xN with "
              "two z-blocks, 64x64x4, 8x8x64, irregular, 2D, old format version); rules: open_reader(slot of 3, preload, "
              "chunk_cache_size in {1, 2, default}), close_reader, read(slot, any in-range call of any method), "
              "emu(any accessor expression; the seven accessors share one handle), emu_close, repeat_last, "
@@ -47,6 +47,12 @@ POOL = [
     # a wide, short cube: more block columns than a remote reader has workers
     {"kind": "spec", "family": "4x4", "rate": 16, "blockshape": [4, 4, 128], "shape": [21, 26, 9], "version": "0.2.8",
      "values": {"kind": "gauss", "vseed": 19}, "il": [100, 2], "xl": [7, 1], "z0": 0, "dz_us": 2000, "arrays": [189, 193]},
+    # 261 block columns on one group of inlines
+    {"kind": "spec", "family": "4x4", "rate": 32, "blockshape": [4, 4, 64], "shape": [4, 1044, 16], "version": "0.2.8",
+     "values": {"kind": "gauss", "vseed": 21}, "il": [1, 1], "xl": [1, 1], "z0": 0, "dz_us": 4000, "arrays": [189, 193]},
+    # a data section of 20 MiB (beyond any 16 MiB piece a preload may be fetched in)
+    {"kind": "spec", "family": "4x4", "rate": 32, "blockshape": [4, 4, 64], "shape": [64, 64, 1280], "version": "0.2.8",
+     "values": {"kind": "smooth", "vseed": 20}, "il": [1, 1], "xl": [1, 1], "z0": 0, "dz_us": 4000, "arrays": [189, 193]},
 ]
 
 _built = {}
@@ -90,6 +96,25 @@ class Executor:
             if r is not None:
                 r.close()
             return None
+        if op == "sweep":
+            # a program's loop: one trace (the anchor) read again and again while the loop walks along the first inline
+            # in steps of one block column, up to 300 columns: more chunk decompressions than any pool or cache holds
+            r = self.readers.get(st_["slot"])
+            if r is None or self.T.is_2d:
+                return None
+            T = self.T
+            anchor = int(st_["u"] * T.n_tr)
+            want_a = T.trace(anchor)
+            cols = list(range(0, T.n_xl, 4))[:300]
+            for x in cols:
+                for t in (anchor, x):
+                    if t >= T.n_tr:
+                        continue
+                    got = np.asarray(r.get_trace(t))
+                    want = want_a if t == anchor else T.trace(t)
+                    if got.shape != want.shape or not np.array_equal(got.view(np.uint32), np.ascontiguousarray(want).view(np.uint32)):
+                        raise Violation("wrong-values:get_trace", f"get_trace({t}) during a sweep over {len(cols)} block columns (anchor trace {anchor}) differs from the true trace")
+            return "sweep"
         if op == "emu_close":
             if self.emu is not None:
                 self.emu.__exit__(None, None, None)
@@ -220,6 +245,13 @@ def make_machine(ctx, state):
             if slot not in self.ex.readers:
                 slot = sorted(self.ex.readers)[0]
             self.do({"op": "read", "slot": slot, "a": a})
+
+        @precondition(lambda self: self.ex is not None and len(self.ex.readers) > 0)
+        @rule(slot=st.integers(0, 2), u=st.floats(0, 1, exclude_max=True))
+        def sweep(self, slot, u):
+            if slot not in self.ex.readers:
+                slot = sorted(self.ex.readers)[0]
+            self.do({"op": "sweep", "slot": slot, "u": u})
 
         @rule(a=ops.abstract_op(EMU_METHODS))
         def emu(self, a):
